@@ -39,6 +39,9 @@ func runC11(c *Ctx) {
 	c.Floor("REFCOUNT", "shared-listener types with an Acquire method", len(ms), 2)
 	for _, m := range ms {
 		ruleRefcount(c, m)
+		// hand-off structure of the shared reader goroutines: a request parked inside the reader cannot be cancelled by closing the
+		// old generation's handle, so the next datagram would go to the generation that is being retired
+		ruleCancelPump(c, m, "HANDOFF")
 	}
 	ruleSurvive(c)
 }
